@@ -1202,3 +1202,83 @@ def flw8(ctx):
                 r.report("FLW-8|input_match_at|restart#%d|%s" % (k, c), short_loc(s["loc"]), im.path,
                          "the partial input match is abandoned and matching restarts, but `%s` keeps the bindings of the abandoned attempt: an alpha or variable is then compared with a stale value" % c)
     return r
+
+
+# ---------------------------------------------------------------- FLW-9 refusal guards read the word being edited
+
+
+def _root_name(e):
+    e = hirq.strip(e)
+    while True:
+        k = e.get("e")
+        if k in ("field", "index", "addr", "unary"):
+            e = hirq.strip(e["a"])
+        elif k == "mcall":
+            e = hirq.strip(e["recv"])
+        else:
+            break
+    return e.get("local") if e.get("e") == "path" else None
+
+
+UNWITNESSED_9 = {
+    ("asca::subrule::SubRule::substitution", "DeletionOnlySeg", 0):
+        "surplus-input deletion after a substitution: the guard reads the original word's syllable; no rule/word could be exhibited where the two "
+        "counts differ at this point while the result has a single syllable (the kept output segments precede the deleted ones in it)",
+}
+
+
+def flw9(ctx):
+    r = RuleResult("FLW-9", "`DeletionOnlySeg` / `DeletionOnlySyll` refusals test the word that the following removal edits, not its pre-image", floor=6)
+    lib = ctx.lib
+    from hirq import parent_map
+    n = 0
+    for fpath in ("asca::subrule::SubRule::transform", "asca::subrule::SubRule::substitution"):
+        b = ctx.fn(lib, fpath)
+        root = b.hir["body"]
+        par = parent_map(root)
+        ordinal = {}
+        for node in hirq.walk(root):
+            if node["e"] != "if":
+                continue
+            which = None
+            for m in hirq.walk(node["then"]):
+                if m["e"] == "path" and (m.get("path") or "").startswith("asca::error::runtime::RuleRuntimeError::DeletionOnly"):
+                    which = m["path"].rsplit("::", 1)[-1]
+            if which is None or any(x["e"] == "if" for x in hirq.walk(node["then"])):
+                continue
+            # the enclosing block and the first removal after the guard
+            blk = par.get(id(node))
+            while blk is not None and blk.get("e") != "block":
+                blk = par.get(id(blk))
+            if blk is None:
+                continue
+            edited = None
+            for st in hirq.stmts_after(blk, node):
+                for m in hirq.walk(st):
+                    if m["e"] == "mcall" and m["name"] in ("remove", "remove_syll", "pop_back", "pop_front", "drain", "truncate", "clear", "swap_remove"):
+                        edited = _root_name(m["recv"])
+                        break
+                if edited:
+                    break
+            if not edited:
+                continue
+            roots = {_root_name(m["recv"]) for m in hirq.walk(node["cond"]) if m["e"] == "mcall" and m["name"] in ("len", "is_empty")}
+            roots.discard(None)
+            k = ordinal.get(which, 0)
+            ordinal[which] = k + 1
+            n += 1
+            stale = sorted(x for x in roots if x != edited)
+            exc = UNWITNESSED_9.get((fpath, which, k))
+            verdict = "ok" if not stale else ("accepted:exception" if exc else "report")
+            r.inst("%s: %s #%d guard counts in %s, removal edits `%s`" % (fpath.rsplit("::", 1)[-1], which, k, sorted(roots), edited), fn_loc(b, node["ln"]), verdict)
+            if stale and exc:
+                e_ = {"site": "%s|%s|#%d" % (fpath, which, k), "reason": exc}
+                if e_ not in r.exceptions:
+                    r.exceptions.append(e_)
+            elif stale:
+                r.report("FLW-9|%s|%s|#%d" % (fpath, which, k), fn_loc(b, node["ln"]), fpath,
+                         "the refusal counts segments/syllables of `%s` but the removal that follows edits `%s`: after an earlier removal in the same match the counts differ and the last segment (syllable) of the word is deleted"
+                         % ("`, `".join(stale), edited))
+    if n < 6:
+        raise AnchorMissing("only %d DeletionOnly* guards followed by a removal found" % n)
+    return r
